@@ -391,7 +391,7 @@ PROPS["C20"] = dict(
         "failed draws only add cost, so the maximum is attained with every "
         "draw succeeding",
         "exact only for scenarios whose monotone state graph fits the cap "
-        "(2 000 states quick, 200 000 thorough); larger ones are counted "
+        "(2 000 states quick, 30 000 thorough); larger ones are counted "
         "as skipped, never as held"],
     floors={"quick": {"scenarios_solved_exactly": 120,
                       "branching_scenarios": 25, "hop_clause_evaluated": 100,
